@@ -277,14 +277,16 @@ def judge(case, impl, model, spec, ctx):
         split = tries[3] if len(tries) > 3 else None
         tries = tries[:3]
         out = []
-        if split is not None and split[0] != 9 and not quic:
-            # ClientHello in two records: no client random can be read ahead of the handshake -> the documented verdict without one
+        if split is not None and split[0] != 9 and not quic and len(split[1]) == 32:
+            # the ClientHello spread over two TLS records: its random is still the random of the ClientHello (C12), so the verdict
+            # is the documented one for (peer, that random)
             meta = dict(case.meta)
-            meta["cr"] = None
+            meta["cr"] = split[1]
             want = doc_oracle(meta)
-            if want is not None and split[0] == 1 and want[1] == 1:
-                return [("violation", "real TLS listener, peer 127.0.0.1, ClientHello spread over two TLS records (client random unreadable), rules %s: "
-                                      "the connection was admitted, the documented verdict without a client random is deny" % case.meta["rules"])]
+            if want is not None and (split[0] == 1) != (want[1] == 0):
+                return [("violation", "real TLS listener, peer 127.0.0.1, ClientHello spread over two TLS records, client random %s, rules %s: "
+                                      "the connection was %s, the documented first-match verdict is %s"
+                         % (bytes(split[1]).hex(), case.meta.get("text") or case.meta["rules"], "admitted" if split[0] == 1 else "refused", "deny" if want[1] else "allow"))]
         refused_wrongly = 0
         first_want = None
         for admitted, rnd in tries:
